@@ -46,6 +46,19 @@ func unlockWorker(sc *scr, i int, done *atomic.Int64) {
 	done.Add(1)
 }
 
+// createdBy returns the "created by ..." line of a goroutine's stack
+func createdBy(body string) string {
+	i := strings.LastIndex(body, "created by ")
+	if i < 0 {
+		return ""
+	}
+	j := strings.IndexByte(body[i:], '\n')
+	if j < 0 {
+		return body[i:]
+	}
+	return body[i : i+j]
+}
+
 type gstate struct {
 	runParked, runAlive  bool
 	lockParked, lockBusy int
@@ -66,13 +79,14 @@ func goroutines() gstate {
 		}
 		head, body := blk[:nl], blk[nl:]
 		switch {
-		case strings.Contains(body, "LatchesScheduler).run"):
+		case strings.Contains(createdBy(body), "LatchesScheduler).run"):
+			// spawned by run(): `go latches.recycle(ts)`, possibly not started yet (only the gowrap frame is visible)
+			g.recyclers++
+		case strings.Contains(createdBy(body), "latch.NewScheduler"):
 			g.runAlive = true
 			if strings.Contains(head, "[chan receive") {
 				g.runParked = true
 			}
-		case strings.Contains(body, "(*Latches).recycle"):
-			g.recyclers++
 		case strings.Contains(body, "created by main.runScript"):
 			// a worker of this driver (possibly not started yet: only the gowrap frame is visible then)
 			switch {
